@@ -424,15 +424,24 @@ func getBlockedRootFields(rootValue cue.Value, rootFieldName string) (blockedFie
 		validFields[dep] = struct{}{}
 	}
 
-	var nextDependencies []string
-loop:
-	for _, d := range dependencies {
+	// walk the dependencies of the dependencies (and so on); each step is visited once, so this
+	// finishes for any graph, including ones with cycles
+	visited := map[string]struct{}{}
+	for len(dependencies) > 0 {
+		d := dependencies[0]
+		dependencies = dependencies[1:]
+
+		if _, ok := visited[d]; ok {
+			continue
+		}
+		visited[d] = struct{}{}
+
 		nextValue, err = findValueAtPath(rootValue, CuePath{d})
 		if err != nil {
 			return nil, fmt.Errorf("failed to find dependency '%s' in cue value: %w", d, err)
 		}
 
-		nextDependencies, err = getConcreteValuesForListOfStringValueAtPath(nextValue, CuePath{string(BP_Dependencies)})
+		nextDependencies, err := getConcreteValuesForListOfStringValueAtPath(nextValue, CuePath{string(BP_Dependencies)})
 		if err != nil {
 			return nil, fmt.Errorf("failed to find nextDependencies in cue value: %w", err)
 		}
@@ -440,10 +449,8 @@ loop:
 		for _, dep := range nextDependencies {
 			validFields[dep] = struct{}{}
 		}
-	}
-	if len(nextDependencies) > 0 {
-		dependencies = nextDependencies
-		goto loop
+
+		dependencies = append(dependencies, nextDependencies...)
 	}
 
 	allFields, err := getAvailableFieldsForValue(rootValue, nil)
